@@ -2,7 +2,7 @@
 from . import vise, core
 PID = 'C03'
 MC = ['C03_AtMostOneInputMove', 'C03_FirstMatchWins', 'C03_NoMatchGoesToCatch']
-TR = ['C03_Step', 'C03_NoMatch', 'C03_InmatchCleared', 'C03_MessageShown']
+TR = ['C03_Step', 'C03_NoMatch', 'C03_InmatchCleared', 'C03_MessageShown', 'C03_RoutedInput', 'C04_ReqNav']
 
 
 def run(tier):
